@@ -395,3 +395,37 @@ def take_and_restore_rule(r, crate, ctx, scope=lambda b: True):
                             "%s answers Ok(None) from the state %s without storing a state: the state taken at the head of the loop was replaced by %s, so when the rest of the frame arrives it is "
                             "decoded as the start of a new frame (every later message of the stream is lost or garbled)" % (fn, v, default))
     return n
+
+
+def pop_until_exhausted_rule(r, ctx):
+    """<WriteQueues as MapEventQueue>::pop (what MapLane::write_to_buffer asks for the next response): it answers None only when the queues are
+    exhausted. An entry that produces nothing (an event or sync key whose entry has gone) is skipped and the next one is taken; if a skipped entry
+    ended the function instead, write_to_buffer would report NoData with events still queued, the agent would drop the lane from its dirty set, and the
+    queued Remove / Clear / Synced would never be written."""
+    from mirlib import describe_rvalue
+    ag = ctx.crate("swimos_agent")
+    bs = [b for b in ag.all_bodies() if b.defpath.endswith("MapEventQueue<K, V>>::pop") and "lanes::queues::WriteQueues" in b.defpath]
+    if len(bs) != 1:
+        raise AnchorMissing("<WriteQueues as MapEventQueue>::pop (found %d)" % len(bs))
+    b = ctx.saw(bs[0])
+    inner = [c for c in b.calls if c.name == "pop" and (c.self_adt or "").endswith("queues::WriteQueues")]
+    if len(inner) != 1:
+        raise AnchorMissing("MapEventQueue::pop: expected one call of WriteQueues::pop, found %d" % len(inner))
+    te = b.try_edges(inner[0])
+    some_t = None
+    if te is not None:
+        some_t = te[0]
+    else:
+        for si in b.result_switches(inner[0]):
+            ve = b.variant_edges(si["block"]) or {}
+            some_t = ve.get("Some", some_t)
+    if some_t is None:
+        raise AnchorMissing("MapEventQueue::pop: the result of WriteQueues::pop is not examined")
+    answers = {i for i, j, p_, rv, line in b.assigns() if p_[0] == 0 and not p_[1] and describe_rvalue(b, rv).startswith("Option::Some(")}
+    ok, wit = b.must_pass([some_t], answers, targets=set(b.exits()))
+    # going round the loop (back to the inner pop) is the other legitimate way to leave an arm: exclude paths through the loop head
+    if not ok:
+        ok = b.path_avoiding([some_t], set(b.exits()), avoid=answers | {inner[0].block}) is None
+    r.check(ok and len(answers) >= 3, "MapEventQueue::pop/none-only-when-exhausted", inner[0].loc(), "after an entry was taken from the queues the function answers Some(..) or takes the next entry (%d answers)" % len(answers),
+            "an entry taken from the queues can end the function with None (path %s): write_to_buffer reports NoData although events are still queued, the lane leaves the dirty set and a pending Remove / Clear / Synced is never written" % (wit,))
+    return b
